@@ -591,7 +591,7 @@ pub fn run(ctx: &Ctx) -> Outcome {
     let only_idx = ctx.replay.as_ref().and_then(|r| r.get("index").and_then(|s| s.as_u64()));
     let (lo, hi) = match only_idx {
         Some(i) => (i, i + 1),
-        None => (0, ctx.tier.pick(5000, 300_000)),
+        None => (0, ctx.tier.pick(20_000, 300_000)),
     };
     run_cases(&mut acc, "mutators", hi - lo, |i| {
         let mut out = CaseOut::new();
